@@ -218,7 +218,9 @@ type pooledObj struct {
 }
 
 // drainKnown empties every node pool and returns the objects for which known() holds, once per pool
-// entry (an object that was Put twice comes out twice).  Objects built by New are dropped.
+// entry (an object that was Put twice comes out twice).  The pool's New is switched off meanwhile, so Get
+// returns nil exactly when the pool is empty; pooled objects the harness has never seen (put there by a
+// failed parse releasing its partial tree) are dropped.
 func drainKnown(known func(interface{}) bool, limit int) []pooledObj {
 	var out []pooledObj
 	pools := ast.VerifPools()
@@ -227,16 +229,18 @@ func drainKnown(known func(interface{}) bool, limit int) []pooledObj {
 			continue
 		}
 		p := pools[n]
-		miss := 0
-		for k := 0; k < limit && miss < 3; k++ {
+		mk := p.New
+		p.New = nil
+		for {
 			o := p.Get()
-			if o != nil && known(o) {
+			if o == nil {
+				break
+			}
+			if known(o) {
 				out = append(out, pooledObj{n, o})
-				miss = 0
-			} else {
-				miss++
 			}
 		}
+		p.New = mk
 	}
 	return out
 }
